@@ -233,8 +233,17 @@ def run(ctx):
                              "nodes": n, "nedges": len(edges)}
     # TLC: reclamation on every recorded graph, all drop orders
     gf = os.path.join(ctx.work, "graphs.ndjson")
+    # binding self-test: a recorded graph plus two extra tensors that reference each other and hang off a handle must be reported
+    SELF_GID = 999999
+    selfg = None
+    for g_ in graphs:
+        if g_["handles"]:
+            n_ = g_["n"]
+            selfg = {"gid": SELF_GID, "n": n_ + 2, "edges": [list(e) for e in g_["edges"]] + [[g_["handles"][0], n_ + 1], [n_ + 1, n_ + 2], [n_ + 2, n_ + 1]],
+                     "handles": list(g_["handles"]), "tensors": list(g_["tensors"]) + [n_ + 1, n_ + 2]}
+            break
     with open(gf, "w") as f:
-        for g_ in graphs:
+        for g_ in graphs + ([selfg] if selfg else []):
             f.write(json.dumps(g_) + "\n")
     try:
         r = tlcmod.run(os.path.join(SPEC, "RefGraph.tla"), os.path.join(SPEC, "RefGraph.cfg"), ctx.work, workers=1, timeout=1200,
@@ -250,6 +259,11 @@ def run(ctx):
     for v in tlcmod.printed_values(r.out):
         if isinstance(v, list) and v and v[0] == "LEAK":
             model_leak[v[1]] = (v[2], v[3])
+    if selfg is not None:
+        if model_leak.get(SELF_GID, (0, 0))[0] < 2:
+            raise Machinery("binding self-test: a reference cycle injected into a recorded ownership graph was not reported by RefGraph")
+        ctx.notes["corrupted_graphs_reported"] = 1
+        del model_leak[SELF_GID]
     for g_ in graphs:
         m = meas[g_["gid"]]
         ml = model_leak.get(g_["gid"], (0, 0))
